@@ -1,5 +1,5 @@
 import json, random, datetime as dt, sys
-sys.path.insert(0,'/tmp/proto/ver')
+sys.path.insert(0, __import__('os').path.dirname(__import__('os').path.abspath(__file__)))
 from gen import parse_pat, cp, state, TAGS
 from bumpver import v2version, version, v2patterns, v2rewrite, rewrite
 def parse_file_pat(s):
